@@ -103,6 +103,7 @@ func runC13(c *core.Ctx) {
 		Reason: "registrations are added/removed by the mailbox goroutine, by disconnect closers and read by emitters"})
 	ruleSignalTable(c)
 	ruleInferredGuards(c, lc, el, "C13.table")
+	ruleNoStaleElementPointerInBus(c, "C13.table")
 
 	c.Doc("C13.refcount", "remote register on 0→1 and unregister on 1→0 of the local count, same key; cancel always cancels locally", 3)
 	ruleRefcount(c)
@@ -981,4 +982,16 @@ func sprintfOperands(key ssa.Value) []ssa.Value {
 		}
 	}
 	return out
+}
+
+// ruleNoStaleElementPointerInBus applies ruleNoStaleElementPointer to bus/**
+// (and to the package of examples).
+func ruleNoStaleElementPointerInBus(c *core.Ctx, rule string) {
+	var fns []*ssa.Function
+	for _, fn := range append(c.RepoFuncs("bus"), c.RepoFuncs(core.WitnessDirName)...) {
+		if !c.IsTestFile(fn) {
+			fns = append(fns, fn)
+		}
+	}
+	ruleNoStaleElementPointer(c, rule, fns)
 }
